@@ -396,7 +396,8 @@ def generate(run_seed, tier):
         # scripted chain: wrap a leaf, compile (and match with) the wrapper, then apply further builders to the
         # compiled object - whatever a builder copies from its operand must not include the compiled cache
         t = wl.randrange(ntasks)
-        leaf = wl.choice([["lit", "ab"], ["lit", "Ab"], ["named", "AnyLetter"], ["new", "Either", ["lit", "ab"], ["lit", "cd"]]])
+        leaf = wl.choice([["lit", "ab"], ["lit", "Ab"], ["named", "AnyLetter"], ["new", "Either", ["lit", "ab"], ["lit", "cd"]],
+                          ["new", "Either", ["lit", "ab"], ["lit", "cd"]], ["op", "+", ["lit", "a"], ["new", "Optional", ["lit", "b"]]]])
         wrap = wl.choice([["new", "Capture", leaf], ["new", "Capture", leaf, "cw"], ["new", "Group", leaf, True], ["new", "Group", leaf],
                           ["new", "Optional", leaf], leaf])
         x = len(g.kinds)
@@ -406,11 +407,13 @@ def generate(run_seed, tier):
                  wl.choice([{"op": "compile", "id": x}, {"op": "gcp", "id": x, "discard": False}])]
         if wl.random() < 0.5:
             chain.append({"op": "match", "id": x, "method": wl.choice(METHODS), "t": wl.choice(tids)})
-        for _ in range(wl.randint(1, 3)):
+        flagged_first = wl.random() < 0.4          # a case-insensitive group of x first, then x in other builders
+        for step_no in range(wl.randint(2, 3) if flagged_first else wl.randint(1, 3)):
             nid = len(g.kinds)
             g.kinds.append("general")
             g.ub.append(0)
-            rec = wl.choice([["call", "group", ["ref", x]], ["new", "Group", ["ref", x]], ["call", "group", ["ref", x], True],
+            rec = wl.choice([["call", "group", ["ref", x], True], ["new", "Group", ["ref", x], True]]) if (flagged_first and step_no == 0) \
+                else wl.choice([["call", "group", ["ref", x]], ["new", "Group", ["ref", x]], ["call", "group", ["ref", x], True],
                              ["call", "capture", ["ref", x]], ["new", "Capture", ["ref", x], "cz"], ["call", "optional", ["ref", x]],
                              ["op", "+", ["ref", x], ["lit", "!"]], ["call", "exactly", ["ref", x], 1], ["op", "+", ["ref", x], ""],
                              ["new", "Either", ["ref", x], ["lit", "zz"]], ["call", "match_at_start", ["ref", x]]])
